@@ -52,7 +52,7 @@ PROPS = {
         "assumptions": COMMON + VALS,
     },
     "C09": {
-        "filters": {"quick": ["c09::quick::", "c09::gen_quick::"], "thorough": ["c09::quick::", "c09::gen_quick::", "c09::gen_thorough::"]},
+        "filters": {"quick": ["c09::l3::", "c09::quick::"], "thorough": ["c09::l3::", "c09::quick::", "c09::thorough::"]},
         "harness_timeout": {"quick": 900, "thorough": 3000},
         "bounds": {
             "quick": "L1 (frontend type inference + operand check, real code) for property types Int, [Int], String with symbolic nullability x one operator per dispatch family, and 8 tag-argument shapes; L2 (operator kernels never panic) for every pair of Int- and String-class operand shapes with nulls anywhere, lists <= 2, strings <= 2 bytes; L3 usize_from_field_value on all i64/u64/null",
